@@ -236,6 +236,20 @@ REGISTRY['constraints:Constraints.positive_negative_pairs'].ensures[
 # ---------------------------------------------------------------------------------------------- Constraints.__init__
 # the label vector is held as SIGNED platform integers whatever the dtype of the argument: the methods mark "in no chunk" / "unknown" with
 # negative numbers and compare labels with `>= 0`, which an unsigned dtype cannot represent (-1 becomes 255 in uint8)
+def _init_returns(a, p, ex):
+  """post-state at call sites: the label vector (same numbers, signed integers; np.asanyarray may return the argument itself)"""
+  obj = a.raw('self')
+  v = a.raw('partial_labels')
+  if isinstance(v, VArr):
+    st = p.store[v.loc]
+    p.heap[obj.oid]['partial_labels'] = p.new_loc(ArrState(st.term, st.shape, 'i', st.owner, (v.loc, st.version), vf=st.vf, tt=st.tt))
+  else:
+    n = fresh('nlabels', z3.IntSort())
+    p.assume(n >= 0)
+    p.heap[obj.oid]['partial_labels'] = p.new_loc(ArrState(fresh('labels', T), Shape(1, [n]), 'i', FRESH_OWNER))
+  return VNone()
+
+
 register(Contract(
     'constraints:Constraints.__init__',
     cases=[Case('labels-' + {'i': 'signed', 'u': 'unsigned', 'f': 'floating', 'b': 'boolean'}[k],
@@ -244,8 +258,7 @@ register(Contract(
         'labels-are-held-as-signed-integers': lambda a, r: z3.BoolVal(a.self.partial_labels is not None and a.self.partial_labels.kind == 'i'),
         'one-label-per-point': lambda a, r: z3.And(a.self.partial_labels.ndim == 1, a.self.partial_labels.dim(0) == a.partial_labels.dim(0)),
     },
-    raises={'ValueError': May(), 'TypeError': May()},
-    modifies={'partial_labels'}, prop=['C07']))
+    returns=Returns(_init_returns), modifies={'partial_labels'}, prop=['C07']))
 C.unit('C07', 'constraints:Constraints.__init__')
 
 
